@@ -15,7 +15,7 @@ CONSTANTS
   Slice = 0
   MaxP = 1
   MaxE = 1
-  Deviations = {"ExceptionAsScore67", "ExceptionsSplitOnLinesOnly"}
+  Deviations = {"ExceptionAsScore67"}
   PatTexts <- MCPatTexts
   ExcTexts <- MCExcTextsA
   ExcListTexts <- MCExcListsSmall
